@@ -233,6 +233,19 @@ MUTATIONS += [
     dict(id="C02-restore-coalesce-from-file", prop="C02", file=RS, old="           && self.from_file.is_none() // and we don't read from a present file\n", new=""),
 ]
 
+# ---- C19 caching wrapper
+CAF = "crates/core/src/backend/cache.rs"
+MUTATIONS += [
+    dict(id="C19-list-no-cache-cleaning-for-index", prop="C19", file=CAF, old="        if tpe.is_cacheable()\n            && let Err(err) = self.cache.remove_not_in_list(tpe, &list)", new="        if tpe == FileType::Snapshot\n            && let Err(err) = self.cache.remove_not_in_list(tpe, &list)"),
+    dict(id="C19-read-full-caches-uncacheable", prop="C19", file=CAF, old="    fn read_full(&self, tpe: FileType, id: &Id) -> RusticResult<Bytes> {\n        if tpe.is_cacheable() {", new="    fn read_full(&self, tpe: FileType, id: &Id) -> RusticResult<Bytes> {\n        if tpe.is_cacheable() || tpe == FileType::Key {"),
+    dict(id="C19-read-partial-wrong-range", prop="C19", file=CAF, old="                    let range = offset as usize..end as usize;", new="                    let range = 0..end as usize;"),
+    dict(id="C19-read-partial-bound-check-off-by-one", prop="C19", file=CAF, old="                    if end > data.len() as u64 {", new="                    if end > data.len() as u64 + 1 {"),
+    dict(id="C19-write-data-packs-cached", prop="C19", file=CAF, old="        if (cacheable || tpe.is_cacheable())\n            && let Err(err) = self.cache.write_bytes(tpe, id, &content)", new="        if (cacheable || tpe.is_cacheable() || tpe == FileType::Pack)\n            && let Err(err) = self.cache.write_bytes(tpe, id, &content)"),
+    dict(id="C19-remove-leaves-cache-entry", prop="C19", file=CAF, old="        if (cacheable || tpe.is_cacheable())\n            && let Err(err) = self.cache.remove(tpe, id)", new="        if tpe.is_cacheable()\n            && let Err(err) = self.cache.remove(tpe, id)"),
+    dict(id="C19-remove-skips-backend-on-cache-error", prop="C19", file=CAF, old="                \"Error in cache backend removing {tpe:?},{id}: {}\",\n                err.display_log()\n            );\n        }\n        self.be.remove(tpe, id, cacheable)", new="                \"Error in cache backend removing {tpe:?},{id}: {}\",\n                err.display_log()\n            );\n            return Ok(());\n        }\n        self.be.remove(tpe, id, cacheable)"),
+    dict(id="C19-index-files-not-cacheable", prop="C19", file="crates/core/src/backend.rs", old="            Self::Config | Self::Key | Self::Pack => false,\n            Self::Snapshot | Self::Index => true,", new="            Self::Config | Self::Key | Self::Pack | Self::Index => false,\n            Self::Snapshot => true,"),
+]
+
 HARMLESS = [
     dict(id="H-C05-trees-symlink-continue", prop="C05", file=CK, old="        for node in tree.nodes {\n            match node.node_type {", new="        for node in tree.nodes {\n            if node.node_type == NodeType::Symlink {\n                continue;\n            }\n            match node.node_type {"),
 ]
